@@ -77,10 +77,42 @@ pub enum LogEv {
 
 thread_local! {
     static LOG: RefCell<Vec<LogEv>> = const { RefCell::new(Vec::new()) };
+    /// when set, this thread's log entries go to a sink owned by another thread
+    static SINK: RefCell<Option<std::sync::Arc<std::sync::Mutex<Vec<LogEv>>>>> = const { RefCell::new(None) };
+    /// argument value for which user-side code (real functions, default bodies) panics
+    static USER_PANIC_ARG: std::cell::Cell<Option<u8>> = const { std::cell::Cell::new(None) };
 }
 
 pub fn log(ev: LogEv) {
-    LOG.with(|l| l.borrow_mut().push(ev));
+    let sink = SINK.with(|s| s.borrow().clone());
+    match sink {
+        Some(sink) => sink.lock().unwrap().push(ev),
+        None => LOG.with(|l| l.borrow_mut().push(ev)),
+    }
+}
+
+pub fn set_log_sink(sink: Option<std::sync::Arc<std::sync::Mutex<Vec<LogEv>>>>) {
+    SINK.with(|s| *s.borrow_mut() = sink);
+}
+
+/// Make real functions and default bodies panic (a *user* panic) when called with this argument.
+pub fn set_user_panic_arg(arg: Option<u8>) {
+    USER_PANIC_ARG.with(|a| a.set(arg));
+}
+
+pub fn user_panic_arg() -> Option<u8> {
+    USER_PANIC_ARG.with(|a| a.get())
+}
+
+pub const USER_PANIC_REAL: &str = "user panic in real function";
+pub const USER_PANIC_DEFAULT: &str = "user panic in default body";
+pub const USER_PANIC_ANSWER: &str = "user panic in answer function";
+pub const USER_PANIC_MATCHER: &str = "user panic in matcher";
+
+fn maybe_user_panic(x: u8, what: &str) {
+    if user_panic_arg() == Some(x) {
+        panic!("{what}");
+    }
 }
 
 pub fn take_log() -> Vec<LogEv> {
@@ -112,22 +144,36 @@ pub trait F {
     fn plain(&self, x: u8) -> u32;
     fn def(&self, x: u8) -> u32 {
         log(LogEv::DefaultBody(M::Def, x));
+        maybe_user_panic(x, USER_PANIC_DEFAULT);
         default_value(M::Def, x)
     }
     fn unm(&self, x: u8) -> u32;
     fn both(&self, x: u8) -> u32 {
         log(LogEv::DefaultBody(M::Both, x));
+        maybe_user_panic(x, USER_PANIC_DEFAULT);
         default_value(M::Both, x)
+    }
+}
+
+/// A trait with a provided method (creates the delegation helper inside the instance it is
+/// called on) for the lifecycle explorer.
+#[unimock(api=PMock)]
+pub trait P {
+    fn req(&self) -> u32;
+    fn prov(&self) -> u32 {
+        7
     }
 }
 
 pub fn real_unm(_: &impl core::any::Any, x: u8) -> u32 {
     log(LogEv::Real(M::Unm, x));
+    maybe_user_panic(x, USER_PANIC_REAL);
     real_value(M::Unm, x)
 }
 
 pub fn real_both(_: &impl core::any::Any, x: u8) -> u32 {
     log(LogEv::Real(M::Both, x));
+    maybe_user_panic(x, USER_PANIC_REAL);
     real_value(M::Both, x)
 }
 
